@@ -51,9 +51,9 @@ func fileName(kind string) string {
 	case "M":
 		return manifestName
 	case "U":
-		return "custom_typeref.go"
+		return "mgr.go" // a hand-written file whose name is a near miss of the generated suffix (any-character dots)
 	default:
-		return "garbage.zip"
+		return "mgr.json"
 	}
 }
 
@@ -258,7 +258,8 @@ func namePool() [][2]string {
 		{manifestName, "M"},
 		{"x.go", "U"}, {"temperature.go", "U"}, {"gr.go", "U"}, {"foo.gr.go.bak", "O"}, {"a" + utils.GeneratedFileSuffix + ".orig", "O"},
 		{manifestName + ".bak", "O"}, {"README", "O"}, {"garbage.zip", "O"}, {strings.ToUpper(manifestName), "O"}, {".hidden", "O"},
-		{"foo.gr.golang", "O"}, {"gr", "O"},
+		{"foo.gr.golang", "O"}, {"gr", "O"}, {"mgr.go", "U"}, {"logr.go", "U"}, {"custom_typeref.go", "U"}, {"mgr.json", "O"}, {"xgr.go", "U"},
+		{"a.grxgo", "O"}, {"go-restli-manifestxgr.json", "O"},
 	}
 }
 
